@@ -39,6 +39,7 @@ type rec struct {
 	InWindowRet bool   `json:"in_window_at_return"`
 	ZoneMin     int    `json:"zone_min,omitempty"`
 	Relabel     string `json:"relabel,omitempty"`
+	Kvno        int    `json:"kvno,omitempty"`
 	CtUs        int64  `json:"ct_us"`
 }
 
@@ -139,6 +140,9 @@ func run(tapeJSON json.RawMessage, res *core.Result) {
 						r.Alt = true
 					}
 					r.SvcNT, r.ZoneMin = op.SvcNT, op.ZoneMin
+					if w != nil {
+						r.Kvno = op.Kvno
+					}
 					if w != nil && RelabelApplies(&tp, op, r.Alt) {
 						r.Relabel = op.Relabel
 					}
@@ -285,6 +289,9 @@ func judge(tp *Tape, base time.Time, skew time.Duration, all []rec, res *core.Re
 			}
 			if rs[i].Relabel != rs[0].Relabel {
 				res.Probes["replay-with-rewritten-sname"]++
+			}
+			if rs[i].Kvno != rs[0].Kvno {
+				res.Probes["replay-with-ticket-under-other-service-key"]++
 			}
 			if rs[i].Alt && !rs[0].Alt && tp.AltMs*1_000_000 > skewNs && rs[i].Invoke-(int64(time.Hour)+rs[i].CtUs*1000) > skewNs {
 				res.Probes["longer-skew-first-used-after-shorter-skew-elapsed"]++
@@ -439,6 +446,8 @@ func classifyDouble(acc, all []rec, skewNs, creation int64) string {
 		return "double-accept/client-time-encoded-with-zone-offset"
 	case a.Relabel != b.Relabel:
 		return "double-accept/rewritten-ticket-sname"
+	case a.Kvno != b.Kvno:
+		return "double-accept/ticket-sealed-under-another-key-of-the-service"
 	case b.Alt && !a.Alt && b.Invoke-(int64(time.Hour)+b.CtUs*1000) > skewNs:
 		return "double-accept/longer-skew-of-second-settings-first-used-late"
 	case !b.InWindowRet && !overlap:
